@@ -18,6 +18,12 @@ lean/DriverC12.lean (commands AG, EX):
     without collapse, Pauli noise channels, initial states): the real backend must answer exactly
     as the model does — RuntimeError (refused) / another exception / final tableau and the
     outcomes of the collapsing measurements.
+    The flag of every entry is read from the gate OBJECT (never through the backend); families of
+    unflagged `controlled_by` gates that keep the class of a Clifford gate (controlled-H, CCZ, C-S,
+    CCCX, Fredkin, …) are placed after / between / before flagged gates of the same class, repeated,
+    and after an earlier execution of such gates on the same backend object.
+  * controlled_refusal_search: the same families against an own numeric test "operator maps Paulis
+    to Paulis": refusal through execute_circuit (nshots 1 and default), Clifford(c), from_circuit.
 """
 from __future__ import annotations
 
@@ -399,6 +405,146 @@ def src_of(g, base):
     return base.gate_src(g)
 
 
+CTRL_BASES = {"X": 1, "Y": 1, "Z": 1, "H": 1, "S": 1, "SDG": 1, "SX": 1, "SXDG": 1, "SWAP": 2, "iSWAP": 2, "FSWAP": 2, "ECR": 2}
+
+
+def controlled_variant(rng, n, name):
+    """`Base(targets).controlled_by(1..3 controls)` that KEEPS the class of the base gate (an object of a
+    Clifford class whose own flag is False); None if the register is too small / qibo falls back to
+    another class (CNOT, CZ, CY, TOFFOLI)."""
+    from qibo import gates
+
+    nt = CTRL_BASES[name]
+    for _ in range(12):
+        if n - nt < 1:
+            return None
+        k = rng.randint(1, min(3, n - nt))
+        qs = rng.sample(range(n), nt + k)
+        g = getattr(gates, name)(*qs[:nt]).controlled_by(*qs[nt:])
+        if g.is_controlled_by and g.__class__.__name__ == name:
+            return g
+    return None
+
+
+def controlled_families(rng, base, count):
+    """circuits in which an unflagged `controlled_by` gate shares its class with flagged gates of the
+    same circuit (earlier, later, both, none) or of an earlier execution on the same backend object:
+    (n, gates, prior gates or None, shape)."""
+    from qibo import gates
+
+    out = []
+    shapes = ["after", "between", "before", "alone", "twice", "prior", "prior-and-after"]
+    names = sorted(CTRL_BASES)
+    for i in range(count):
+        name = names[i % len(names)] if i < 2 * len(names) else rng.choice(names)
+        nt = CTRL_BASES[name]
+        n = rng.randint(nt + (3 if name == "X" else 2 if name in ("Y", "Z") else 1), 5)
+        cg = controlled_variant(rng, n, name)
+        if cg is None:
+            continue
+        shape = shapes[i % len(shapes)] if i < 3 * len(shapes) else rng.choice(shapes)
+
+        def plain():
+            return getattr(gates, name)(*rng.sample(range(n), nt))
+
+        def fill(k):
+            return [g for g in base.random_clifford_gates(rng, n, k, rotations=False)]
+
+        def fill_other(k):
+            return [g for g in fill(k) if g.__class__.__name__ != name]
+
+        prior = None
+        if shape == "after":
+            gs = fill(rng.randint(0, 3)) + [plain()] + fill(rng.randint(0, 3)) + [cg] + fill(rng.randint(0, 2))
+        elif shape == "between":
+            gs = [plain()] + fill(rng.randint(0, 3)) + [cg] + fill(rng.randint(0, 3)) + [plain()]
+        elif shape == "before":
+            gs = fill_other(rng.randint(0, 3)) + [cg] + fill(rng.randint(0, 2)) + [plain()]
+        elif shape == "alone":
+            gs = fill_other(rng.randint(0, 4)) + [cg] + fill_other(rng.randint(0, 3))
+        elif shape == "twice":
+            cg2 = controlled_variant(rng, n, name) or cg
+            gs = [plain(), cg] + fill(rng.randint(0, 2)) + [clone(cg2), plain()]
+        elif shape == "prior":
+            prior = fill(rng.randint(0, 3)) + [plain(), plain()]
+            gs = fill_other(rng.randint(0, 3)) + [cg] + fill_other(rng.randint(0, 2))
+        else:
+            prior = [plain()] + fill(rng.randint(0, 3))
+            gs = [plain()] + fill(rng.randint(0, 2)) + [cg]
+        out.append((n, gs, prior, f"{shape}:{name}"))
+    return out
+
+
+DEMO_CONTROLLED = [
+    (4, lambda g: [g.H(0), g.H(1), g.H(2).controlled_by(0)]),
+    (4, lambda g: [g.H(0), g.H(1), g.H(2), g.Z(3), g.Z(2).controlled_by(0, 1)]),
+    (4, lambda g: [g.H(0), g.H(1), g.S(0), g.S(1).controlled_by(0)]),
+    (4, lambda g: [g.H(0), g.H(1), g.H(2), g.X(1), g.X(3).controlled_by(0, 1, 2)]),
+    (4, lambda g: [g.H(0), g.H(1), g.SWAP(0, 3), g.SWAP(1, 2).controlled_by(3)]),
+    (4, lambda g: [g.H(0), g.H(1), g.Y(3), g.Y(2).controlled_by(0, 1)]),
+    (3, lambda g: [g.H(2).controlled_by(0), g.H(0)]),
+    (3, lambda g: [g.SDG(1), g.SDG(2).controlled_by(1), g.SDG(0)]),
+]
+
+
+def controlled_refusal_search(ctx, base):
+    """direct search on the real code: a circuit containing a `controlled_by` gate whose operator does
+    not map Paulis to Paulis (own numeric test on the full matrix) must be refused through every
+    entry point, wherever gates of the same class occur; if it is accepted the state is compared."""
+    from qibo import gates
+    from qibo.backends import CliffordBackend
+    from qibo.quantum_info.clifford import Clifford
+    from vlib import qgates
+
+    rng = ctx.rng
+    bad0 = len(ctx.failures)
+    fams = [(n, mk(gates), None, "demo") for n, mk in DEMO_CONTROLLED]
+    fams += controlled_families(rng, base, 120 if ctx.thorough else 45)
+    for n, gs, prior, shape in fams:
+        descr = [base.gate_src(g) for g in gs]
+        ctx.case(("refuse-controlled", n, tuple(descr), None if prior is None else tuple(base.gate_src(g) for g in prior)))
+        ctx.stat("refuse_controlled_" + shape.split(":")[0])
+        # reference: which entries are not Clifford operators
+        culprits = [g for g in gs if g.is_controlled_by and not base.is_clifford_matrix(qgates.gate_full_matrix(g, n))]
+        if not culprits:
+            ctx.stat("refuse_controlled_reference_clifford")
+            continue
+        name = culprits[0].__class__.__name__
+        for how in ("backend", "backend-nshots", "Clifford", "from_circuit"):
+            be = CliffordBackend("numpy")
+            try:
+                if prior is not None:
+                    be.execute_circuit(base.build(n, [clone(g) for g in prior]))
+                c = base.build(n, [clone(g) for g in gs])
+                if how == "backend":
+                    r = be.execute_circuit(c, nshots=1)
+                elif how == "backend-nshots":
+                    r = be.execute_circuit(c)
+                elif how == "Clifford":
+                    r = Clifford(c, engine="numpy")
+                else:
+                    r = Clifford.from_circuit(c, engine="numpy")
+            except Exception:  # noqa: BLE001
+                ctx.stat("refused_controlled")
+                continue
+            try:
+                psi = base.sv_state(n, gs)
+                same = np.allclose(np.asarray(r.state()), np.outer(psi, psi.conj()), atol=1e-9)
+            except Exception:  # noqa: BLE001
+                same = False
+            pre = "" if prior is None else f"p = Circuit({n})\nfor g in [{', '.join(base.gate_src(g) for g in prior)}]:\n    p.add(g)\nbe.execute_circuit(p)\n"
+            ctx.fail(f"accepts-nonclifford:controlled-{name}",
+                     f"circuit containing the non-Clifford gate {base.gate_src(culprits[0])} (class {name} kept by controlled_by) is accepted ({how}, shape {shape}"
+                     f"{', after an execution of ' + str([base.gate_src(g) for g in prior]) + ' on the same backend object' if prior is not None else ''})"
+                     f"{'' if same else ' and the stabiliser state differs from the state-vector result'}: {descr}",
+                     base.HEAD + "be = CliffordBackend('numpy')\n" + pre + base.circuit_src(n, gs) +
+                     "try:\n    be.execute_circuit(c, nshots=1)\nexcept RuntimeError as e:\n    raise SystemExit(0 if 'non-Clifford' in str(e) else 'other error: ' + str(e))\nraise SystemExit('accepted a non-Clifford circuit')\n",
+                     expected="RuntimeError: Circuit contains non-Clifford gates.", observed="accepted" + ("" if same else ", wrong state"),
+                     broken=["C12_search_refuse_controlled"])
+            break
+    ctx.ob("C12_search_refuse_controlled", len(ctx.failures) == bad0, "search", "")
+
+
 def accept_correspondence(ctx, base):
     from qibo import gates
 
@@ -416,7 +562,12 @@ def accept_correspondence(ctx, base):
         (2, [gates.H(0).controlled_by(1)], None), (1, [], None),
     ]
     for n, gs, init in fixed:
-        circuits.append((n, gs, init))
+        circuits.append((n, gs, init, None))
+    # unflagged controlled_by gates sharing their class with flagged gates (same circuit / earlier execution)
+    for n, mk in DEMO_CONTROLLED:
+        circuits.append((n, mk(gates), None, None))
+    for n, gs, prior, _shape in controlled_families(rng, base, 150 if ctx.thorough else 56):
+        circuits.append((n, gs, None, prior))
     for _ in range(420 if ctx.thorough else 140):
         n = rng.randint(1, 5)
         clean = rng.random() < 0.5
@@ -425,25 +576,33 @@ def accept_correspondence(ctx, base):
         if rng.random() < 0.3:
             pre = base.random_clifford_gates(rng, n, rng.randint(0, 8))
             init = np.asarray(be.execute_circuit(base.build(n, pre or [gates.I(0)])).symplectic_matrix).astype(np.uint8)
-        circuits.append((n, gs, init))
+        circuits.append((n, gs, init, None))
     # every position of one unflagged gate in an otherwise Clifford circuit (first, last, behind M)
     for _ in range(30 if ctx.thorough else 10):
         n = rng.randint(1, 4)
         body = [base.random_clifford_gate(rng, n) for _ in range(rng.randint(1, 5))]
         for pos in range(len(body) + 1):
-            circuits.append((n, body[:pos] + [gates.T(rng.randrange(n))] + body[pos:], None))
+            circuits.append((n, body[:pos] + [gates.T(rng.randrange(n))] + body[pos:], None, None))
     lines, real, kept = [], [], []
-    for n, gs, init in circuits:
+    for n, gs, init, prior in circuits:
         gs = [clone(g) for g in gs]
         try:
             c = base.build(n, gs)
+            cp = None if prior is None else base.build(n, [clone(g) for g in prior])
         except Exception:  # noqa: BLE001  (Circuit.add refuses the queue: not about the backend)
             ctx.stat("accept_unbuildable")
             continue
-        kept.append((n, gs, init))
+        kept.append((n, gs, init, prior))
         init_in = None if init is None else np.array(init, copy=True)
+        run_be = be
+        if cp is not None:
+            # an earlier execution of flagged gates of the same classes on the SAME (fresh) backend object
+            from qibo.backends import CliffordBackend
+
+            run_be = CliffordBackend("numpy")
+            run_be.execute_circuit(cp, nshots=1)
         try:
-            r = be.execute_circuit(c, initial_state=init_in, nshots=1)
+            r = run_be.execute_circuit(c, initial_state=init_in, nshots=1)
             T = np.asarray(r.symplectic_matrix).astype(np.uint8)
             outs = []
             coins = []
@@ -467,7 +626,7 @@ def accept_correspondence(ctx, base):
                 try:
                     c3 = base.build(n, [clone(g) for g in gs])
                     if how == "nshots":
-                        be.execute_circuit(c3, initial_state=None if init is None else np.array(init, copy=True))
+                        run_be.execute_circuit(c3, initial_state=None if init is None else np.array(init, copy=True))
                     else:
                         from qibo.quantum_info.clifford import Clifford
 
@@ -484,9 +643,11 @@ def accept_correspondence(ctx, base):
     outs = run_driver(lines, driver=DRIVER)
     bad = 0
     circuits = kept
-    for (n, gs, init), res, out in zip(circuits, real, outs):
+    for (n, gs, init, prior), res, out in zip(circuits, real, outs):
         descr = [src_of(g, base) for g in gs]
-        ctx.case(("accept", n, tuple(descr), None if init is None else init.tobytes()))
+        ctx.case(("accept", n, tuple(descr), None if init is None else init.tobytes(), None if prior is None else tuple(src_of(g, base) for g in prior)))
+        if any(g.is_controlled_by for g in gs if g.__class__.__name__ not in ("M", "PauliNoiseChannel")):
+            ctx.stat("accept_with_controlled_by" + ("_after_prior_execution" if prior is not None else ""))
         kinds = {("M" if g.__class__.__name__ == "M" else "N" if g.__class__.__name__ == "PauliNoiseChannel" else "G") for g in gs}
         ctx.stat(f"accept_{res[0]}")
         ctx.stat("accept_with_" + "".join(sorted(kinds)))
@@ -504,24 +665,28 @@ def accept_correspondence(ctx, base):
         flags = [bool(g.clifford) for g in gs if g.__class__.__name__ not in ("M", "PauliNoiseChannel")]
         body = "def _u(q, flag):\n    g = gates.Unitary(np.array([[1, 1], [1, -1]]) / np.sqrt(2), q)\n    g.clifford = flag\n    return g\n" \
             f"c = Circuit({n})\nfor g in [{', '.join(descr)}]:\n    c.add(g)\n" \
-            + ("init = None\n" if init is None else f"init = np.array({init.tolist()}, dtype=np.uint8)\n")
+            + ("init = None\n" if init is None else f"init = np.array({init.tolist()}, dtype=np.uint8)\n") \
+            + "be = CliffordBackend('numpy')\n" \
+            + ("" if prior is None else f"p = Circuit({n})\nfor g in [{', '.join(src_of(g, base) for g in prior)}]:\n    p.add(g)\nbe.execute_circuit(p, nshots=1)\n")
         if model[0] == "REFUSED":
             key = "accepts-nonclifford:" + next((g.__class__.__name__ for g in gs if g.__class__.__name__ not in ("M", "PauliNoiseChannel") and not g.clifford), "?")
+            if prior is not None:
+                key += ":after-execution"
             what = f"circuit containing a gate with clifford == False is not refused with RuntimeError (answer {res[0]}{':' + res[1] if res[0] == 'ENGINE' else ''}): {descr}"
-            test = "try:\n    CliffordBackend('numpy').execute_circuit(c, initial_state=init, nshots=1)\nexcept RuntimeError as e:\n    raise SystemExit(0 if 'non-Clifford' in str(e) else 'other error: ' + str(e))\nexcept Exception as e:\n    raise SystemExit('wrong exception ' + type(e).__name__)\nraise SystemExit('accepted')\n"
+            test = "try:\n    be.execute_circuit(c, initial_state=init, nshots=1)\nexcept RuntimeError as e:\n    raise SystemExit(0 if 'non-Clifford' in str(e) else 'other error: ' + str(e))\nexcept Exception as e:\n    raise SystemExit('wrong exception ' + type(e).__name__)\nraise SystemExit('accepted')\n"
         elif res[0] == "REFUSED":
             key = "refuses-clifford-circuit"
             what = f"circuit whose gates all have clifford == True (flags {flags}) is refused: {descr}"
-            test = "CliffordBackend('numpy').execute_circuit(c, initial_state=init, nshots=1)\n"
+            test = "be.execute_circuit(c, initial_state=init, nshots=1)\n"
         elif model[0] == "DONE":
             key = "state:accepted-circuit"
             what = f"accepted circuit: tableau / collapse outcomes differ from the fold of the tableau operations (answer {res[0]}): {descr}"
-            test = f"r = CliffordBackend('numpy').execute_circuit(c, initial_state=init, nshots=1)\nexpected = {model[1]!r}\n" \
+            test = f"r = be.execute_circuit(c, initial_state=init, nshots=1)\nexpected = {model[1]!r}\n" \
                 "got = ' '.join(''.join(str(int(b)) for b in row) for row in np.asarray(r.symplectic_matrix).astype(int))\nassert got == expected, got\n"
         else:
             key = "accepts-engine-refused-gate"
             what = f"a flagged gate without Clifford operation is executed instead of raising: {descr}"
-            test = "try:\n    CliffordBackend('numpy').execute_circuit(c, initial_state=init, nshots=1)\nexcept Exception:\n    raise SystemExit(0)\nraise SystemExit('executed')\n"
+            test = "try:\n    be.execute_circuit(c, initial_state=init, nshots=1)\nexcept Exception:\n    raise SystemExit(0)\nraise SystemExit('executed')\n"
         ctx.fail(key, what, base.HEAD + body + test, expected=" ".join(model)[:300], observed=" ".join(res)[:300], broken=["C12_corr_accept"])
     ctx.ob("C12_corr_accept", bad == 0, "correspondence", f"{bad} disagreements of {len(circuits)}" if bad else f"{len(circuits)} circuits")
 
@@ -531,3 +696,4 @@ def run_suites(ctx, base):
     bm20_correspondence(ctx, base, cases)
     group_suite(ctx, base)
     accept_correspondence(ctx, base)
+    controlled_refusal_search(ctx, base)
